@@ -367,6 +367,15 @@ func (x *execState) forLoop(s *tw.Stmt, sc *Scope) signal {
 		case s.PostName != "" && s.PostName != loopVar:
 			// an assignment to another name as the post clause binds it in the loop's
 			// block: what later passes see of it is a matter of pass scoping
+			// ... but the reserved name and a change of type are refused whatever the scoping
+			if s.PostName == "loop" {
+				x.fail(Err, "the name loop is reserved")
+				return sigNone
+			}
+			if old, found, stale := ls.lookup(s.PostName); found && !stale && old.K != pv.K {
+				x.fail(Err, "re-assignment with a different type: "+s.PostName)
+				return sigNone
+			}
 			x.fail(Unspec, "post clause assigns a name other than the loop variable")
 			return sigNone
 		case s.PostName == "" && s.Init == nil:
